@@ -35,3 +35,10 @@ func VerifSetLimits(b *Backend, maxMailboxes, maxMessages uint32) {
 		u.imapLimits = lim
 	}
 }
+
+func (c *verifCredConn) UpdateMailboxName(ctx context.Context, cache connector.IMAPStateWrite, mboxID imap.MailboxID, newName []string) error {
+	return nil
+}
+func (c *verifCredConn) DeleteMailbox(ctx context.Context, cache connector.IMAPStateWrite, mboxID imap.MailboxID) error {
+	return nil
+}
